@@ -729,6 +729,7 @@ func (r *crashRun) doGC(db *NoKV.DB) {
 // ---- reopening a crash image ----
 
 type obsT struct {
+	second []string // reads after the second incarnation (new writes, clean close, reopen); nil: none
 	opened bool
 	reads  []string   // per key: OA | OV n | OU | OG | OD
 	stages [][]string // reads after flush, after move+GC, after a clean reopen
@@ -831,6 +832,99 @@ func tmpRoot() string {
 		return "/dev/shm"
 	}
 	return ""
+}
+
+// walRecordEnds returns the end offsets of the complete records of a WAL segment image.
+func walRecordEnds(b []byte) []int {
+	var ends []int
+	rd := bytes.NewReader(b)
+	pos := 0
+	for {
+		_, _, length, err := wal.DecodeRecord(rd)
+		if err != nil {
+			return ends
+		}
+		pos += int(length) + 8
+		ends = append(ends, pos)
+	}
+}
+
+func applySecond(db *NoKV.DB, cfg *wlConfig, second []wlStep) error {
+	for _, st := range second {
+		if cfg.Txn {
+			err := db.Update(func(txn *NoKV.Txn) error {
+				for _, e := range st.Entries {
+					if err := txn.Set(crashKeys[e.Key-1], valueBytes(e.vid, e.Size)); err != nil {
+						return err
+					}
+				}
+				return nil
+			})
+			if err != nil {
+				return err
+			}
+		} else {
+			e := st.Entries[0]
+			if err := db.Set(crashKeys[e.Key-1], valueBytes(e.vid, e.Size)); err != nil {
+				return err
+			}
+		}
+	}
+	return nil
+}
+
+// observeSecond reopens an image, reads, lets a second incarnation write acknowledged batches
+// into the recovered store (same memtable, same WAL segment), closes cleanly, reopens and reads.
+func observeSecond(img image, cfg *wlConfig, values map[string]int, second []wlStep) obsT {
+	dir, err := os.MkdirTemp(tmpRoot(), "nokv-crashimg-")
+	if err != nil {
+		panic(err)
+	}
+	defer os.RemoveAll(dir)
+	for n, b := range img {
+		p := filepath.Join(dir, n)
+		_ = os.MkdirAll(filepath.Dir(p), 0o755)
+		if err := os.WriteFile(p, b, 0o644); err != nil {
+			panic(err)
+		}
+	}
+	var o obsT
+	flushGate.setOpen(true)
+	ocfg := *cfg
+	ocfg.MemTable = 1 << 20
+	ocfg.Sync = true
+	cfg = &ocfg
+	db, perr := safeOpen(options(dir, cfg))
+	if db == nil {
+		o.note = "open: " + perr
+		return o
+	}
+	o.opened = true
+	o.reads = readAll(db, cfg, values)
+	o.stable = true
+	fail := func(why string) obsT {
+		o.note += " " + why
+		o.second = make([]string, len(crashKeys))
+		for i := range o.second {
+			o.second[i] = "OU"
+		}
+		return o
+	}
+	var werr error
+	if perr := safely(func() { werr = applySecond(db, cfg, second) }); perr != "" || werr != nil {
+		_ = safely(func() { _ = db.Close() })
+		return fail(fmt.Sprintf("second incarnation write failed: %s %v", perr, werr))
+	}
+	if perr := safely(func() { _ = db.Close() }); perr != "" {
+		return fail("close panic: " + perr)
+	}
+	db2, perr := safeOpen(options(dir, cfg))
+	if db2 == nil {
+		return fail("second open: " + perr)
+	}
+	o.second = readAll(db2, cfg, values)
+	_ = safely(func() { _ = db2.Close() })
+	return o
 }
 
 func observe(img image, cfg *wlConfig, values map[string]int) obsT {
@@ -1219,6 +1313,87 @@ func runWorkload(c *corr.Ctx, cfg *wlConfig, label string) error {
 	}
 	propN := 10
 	fmt.Sscanf(c.Prop, "C%d", &propN)
+	// two-incarnation histories on selected WAL-write crash points: the image as it is and with
+	// the write torn inside its last record
+	type tornPt struct {
+		p    point
+		torn int // 0: untorn; j+1: j records of the write survive
+		cut  int
+		obs  obsT
+	}
+	second := []wlStep{{Kind: "batch", Entries: []wlEntry{{Key: 1, Size: 10}}}, {Kind: "batch", Entries: []wlEntry{{Key: 2, Size: 40}}}}
+	for i := range second {
+		for j := range second[i].Entries {
+			e := &second[i].Entries[j]
+			r.nextVid++
+			e.vid = r.nextVid
+			r.values[string(valueBytes(e.vid, e.Size))] = e.vid
+		}
+	}
+	var secondTerm []string
+	for _, st := range second {
+		var ws []string
+		for _, e := range st.Entries {
+			ws = append(ws, fmt.Sprintf("(%d, Some %d)", e.Key, e.vid))
+		}
+		secondTerm = append(secondTerm, corr.List(ws))
+	}
+	var walPts []point
+	for _, p := range r.points {
+		if strings.HasPrefix(p.why, "op1 ") && strings.HasSuffix(p.why, ".wal") && p.n > 0 && strings.HasPrefix(r.effs[p.n-1], "WF ") {
+			walPts = append(walPts, p)
+		}
+	}
+	var torn []*tornPt
+	maxPts := 5
+	for i := 0; i < len(walPts) && i < maxPts; i++ {
+		p := walPts[i*len(walPts)/min(len(walPts), maxPts)]
+		var seg, k int
+		fmt.Sscanf(r.effs[p.n-1], "WF %d %d", &seg, &k)
+		name := fmt.Sprintf("%05d.wal", seg)
+		data := r.images[p.img][name]
+		ends := walRecordEnds(data)
+		torn = append(torn, &tornPt{p: p})
+		if len(ends) == 0 || ends[len(ends)-1] != len(data) {
+			continue
+		}
+		last := 0
+		if len(ends) > 1 {
+			last = ends[len(ends)-2]
+		}
+		for _, cut := range []int{last + (len(data)-last)/2, len(data) - 3, last + 2} {
+			if cut > last && cut < len(data) {
+				torn = append(torn, &tornPt{p: p, torn: k, cut: cut})
+			}
+		}
+	}
+	{
+		var wg sync.WaitGroup
+		sem := make(chan struct{}, 8)
+		for _, tp := range torn {
+			wg.Add(1)
+			sem <- struct{}{}
+			go func(tp *tornPt) {
+				defer wg.Done()
+				defer func() { <-sem }()
+				img := r.images[tp.p.img]
+				if tp.torn > 0 {
+					var seg, k int
+					fmt.Sscanf(r.effs[tp.p.n-1], "WF %d %d", &seg, &k)
+					name := fmt.Sprintf("%05d.wal", seg)
+					cp := image{}
+					for n, b := range img {
+						cp[n] = b
+					}
+					cp[name] = img[name][:tp.cut]
+					img = cp
+				}
+				tp.obs = observeSecond(img, cfg, r.values, second)
+			}(tp)
+		}
+		wg.Wait()
+		c.CountN("second_incarnations", len(torn))
+	}
 	cfgJSON, _ := json.Marshal(cfg)
 	seen := map[string]bool{}
 	for _, p := range r.points {
@@ -1234,8 +1409,8 @@ func runWorkload(c *corr.Ctx, cfg *wlConfig, label string) error {
 		for _, st := range o.stages {
 			stages = append(stages, rl(st))
 		}
-		obs := fmt.Sprintf("Ob %s %s %s", coqBool(o.opened), rl(o.reads), corr.List(stages))
-		term := fmt.Sprintf("Cs %d %s %d %d %s %s %s %d %d (%s)", propN, coqBool(cfg.Sync), firstSeg, cfg.Buckets, coqBool(cfg.Txn),
+		obs := fmt.Sprintf("Ob %s %s %s [] []", coqBool(o.opened), rl(o.reads), corr.List(stages))
+		term := fmt.Sprintf("Cs %d %s %d %d %s %s %s %d %d 0 (%s)", propN, coqBool(cfg.Sync), firstSeg, cfg.Buckets, coqBool(cfg.Txn),
 			corr.List(steps), corr.List(r.effs), p.n, p.acked, obs)
 		key := fmt.Sprintf("%d/%d/%s", p.n, p.acked, obs)
 		if seen[key] {
@@ -1250,6 +1425,28 @@ func runWorkload(c *corr.Ctx, cfg *wlConfig, label string) error {
 		inStep := p.step >= 0 && p.why != "ack" && p.why != "start"
 		c.Emit(corr.Case{Coq: term, Nontrivial: inStep, Desc: map[string]any{"workload": label, "config": json.RawMessage(cfgJSON),
 			"crash_after": p.why, "effects_done": p.n, "acked": p.acked, "note": strings.TrimSpace(o.note)}})
+	}
+	for _, tp := range torn {
+		o := tp.obs
+		rl := func(rs []string) string {
+			var reads []string
+			for i, rd := range rs {
+				reads = append(reads, fmt.Sprintf("(%d, %s)", i+1, rd))
+			}
+			return corr.List(reads)
+		}
+		tornN := 0
+		if tp.torn > 0 {
+			tornN = tp.torn // j+1 with j = k-1 surviving records
+			c.Count("torn_wal_tail_images")
+		}
+		obs := fmt.Sprintf("Ob %s %s [] %s %s", coqBool(o.opened), rl(o.reads), corr.List(secondTerm), rl(o.second))
+		term := fmt.Sprintf("Cs %d %s %d %d %s %s %s %d %d %d (%s)", propN, coqBool(cfg.Sync), firstSeg, cfg.Buckets, coqBool(cfg.Txn),
+			corr.List(steps), corr.List(r.effs), tp.p.n, tp.p.acked, tornN, obs)
+		c.Count("two_incarnation_cases")
+		c.Emit(corr.Case{Coq: term, Nontrivial: true, Desc: map[string]any{"workload": label, "config": json.RawMessage(cfgJSON),
+			"crash_after": tp.p.why, "effects_done": tp.p.n, "acked": tp.p.acked, "torn_cut": tp.cut, "second_incarnation": true,
+			"note": strings.TrimSpace(o.note)}})
 	}
 	return nil
 }
@@ -1335,7 +1532,7 @@ func runCrash(c *corr.Ctx) error {
 	installHooks()
 	c.Meta("run_module", "RunCrash")
 	c.Meta("exhaustive", false)
-	c.Meta("rule", "small workloads (<= 12 batches: plain Set/Del or transactions of 1-3 keys, in transactional workloads also 2-3 transactions committed concurrently so that one commit batch holds several requests, 4 keys, values on both sides of ValueThreshold, 1-2 value-log buckets, tiny value-log files and memtables so that both rotate, SyncWrites on/off, forced rotations, gated flushes, one L0 move, one value-log GC, optional manifest rewrites) on a real DB over a recording vfs.FS; every state-changing vfs operation and every verifhook.Crash site is a crash point: the directory image at that instant is reopened with the real Open, every key is read through Get / GetVersionedEntry / a transaction, then rotation + flush of every memtable, new writes of other keys until the value-log file of every bucket has rotated, GC of every sealed value-log file (newest first) are forced and the reads repeated after each stage, then a clean reopen; every workload ends with a recorded clean Close whose directory is reopened the same way. non-trivial = crash point inside a batch or a maintenance step")
+	c.Meta("rule", "small workloads (<= 12 batches: plain Set/Del or transactions of 1-3 keys, in transactional workloads also 2-3 transactions committed concurrently so that one commit batch holds several requests, 4 keys, values on both sides of ValueThreshold, 1-2 value-log buckets, tiny value-log files and memtables so that both rotate, SyncWrites on/off, forced rotations, gated flushes, one L0 move, one value-log GC, optional manifest rewrites) on a real DB over a recording vfs.FS; every state-changing vfs operation and every verifhook.Crash site is a crash point: the directory image at that instant is reopened with the real Open, every key is read through Get / GetVersionedEntry / a transaction, then rotation + flush of every memtable, new writes of other keys until the value-log file of every bucket has rotated, GC of every sealed value-log file (newest first) are forced and the reads repeated after each stage, then a clean reopen; every workload ends with a recorded clean Close (which releases the backlog of sealed memtables: back-to-back flushes) whose directory is reopened the same way; on up to 5 WAL-write crash points per workload the image, and the image with that write torn at three byte positions inside its last record, are reopened, a second incarnation writes two acknowledged batches, closes cleanly, and the directory is reopened and read again. non-trivial = crash point inside a batch or a maintenance step")
 	if c.Replay != "" {
 		cases, err := c.ReplayCases()
 		if err != nil {
@@ -1397,6 +1594,14 @@ func runCrash(c *corr.Ctx) error {
 			Steps: []wlStep{{Kind: "batch", Entries: []wlEntry{big(1)}}, {Kind: "batch", Entries: []wlEntry{big(2)}},
 				{Kind: "batch", Entries: []wlEntry{big(1)}}, {Kind: "batch", Entries: []wlEntry{big(3)}}}})
 	}
+	// a backlog of three sealed memtables that nothing flushes until the clean Close releases the
+	// flush gate: the flushes then run back to back (every file operation of them is a crash
+	// point; the model flushes oldest first, the real order shows in the manifest edits)
+	scripts = append(scripts, &wlConfig{Txn: true, Sync: true, Buckets: 1, MemTable: 1 << 20, VlogSize: 400, Threshold: 32, ManRewr: 64 << 20,
+		Steps: []wlStep{{Kind: "batch", Entries: []wlEntry{{Key: 1, Size: 10}}}, {Kind: "rot"},
+			{Kind: "batch", Entries: []wlEntry{{Key: 2, Size: 10}, {Key: 1, Size: 40}}}, {Kind: "rot"},
+			{Kind: "batch", Entries: []wlEntry{{Key: 3, Size: 10}}}, {Kind: "rot"},
+			{Kind: "batch", Entries: []wlEntry{{Key: 1, Del: true}}}}})
 	for i, cfg := range scripts {
 		c.Count("workload_scripted")
 		if err := runWorkload(c, cfg, fmt.Sprintf("script%d", i)); err != nil {
